@@ -25,7 +25,7 @@ vars == <<l, hs, ms, ks, D, kc>>
 
 Objs == 0..7
 Garbage == [L |-> ZeroBits(128), R |-> ZeroBits(128), buf |-> <<>>, st |-> "garbage", msg |-> <<>>]
-NoKdf == [prk |-> <<>>, t |-> <<>>, counter |-> 0, posn |-> 0, live |-> FALSE]
+NoKdf == [prk |-> <<>>, t |-> <<>>, counter |-> 0, posn |-> 0, live |-> FALSE, total |-> 0]
 NoKc == [key |-> <<>>, set |-> FALSE, ks |-> <<>>]
 
 WithMsg(h, m) == [L |-> h.L, R |-> h.R, buf |-> h.buf, st |-> h.st, msg |-> m]
@@ -149,6 +149,19 @@ THkdf == /\ Tr[l].e = "Hkdf"
                 ELSE Judge(e.res = -1 /\ e.untouched = 1 /\ e.canary = 1, l, e, "refused with -1, nothing written")
          /\ UNCHANGED <<hs, ms, ks, D, kc>>
 
+\* head of a long one-shot output whose blocks follow as HkdfBlock events
+THkdfHead == /\ Tr[l].e = "HkdfHead"
+             /\ LET e == Tr[l] IN
+                IF e.len <= HkdfMax
+                THEN Judge(e.res = 0 /\ e.outlen = e.len /\ e.canary = 1, l, e, "res = 0, exactly len bytes")
+                ELSE Judge(e.res = -1 /\ e.untouched = 1 /\ e.canary = 1, l, e, "refused with -1, nothing written")
+             /\ UNCHANGED <<hs, ms, ks, D, kc>>
+
+\* head of a long PBKDF2 output whose blocks follow as PbBlock events
+TPbHead == /\ Tr[l].e = "PbHead"
+           /\ LET e == Tr[l] IN Judge(e.outlen = e.len /\ e.canary = 1, l, e, "exactly len bytes, canaries intact")
+           /\ UNCHANGED <<hs, ms, ks, D, kc>>
+
 \* one block of a one-shot output, chained on the previous block taken from the trace
 \* (exact by induction over the blocks of one output; see DESIGN.md C13)
 THkdfBlock == /\ Tr[l].e = "HkdfBlock"
@@ -163,7 +176,8 @@ THkExtract == /\ Tr[l].e = "HkExtract"
               /\ LET e == Tr[l]
                      x == HkExtract(e.key, e.salt)
                  IN  /\ Judge(e.canary = 1, l, e, "buffer contract")
-                     /\ ks' = [ks EXCEPT ![e.obj] = [prk |-> x.prk, t |-> x.t, counter |-> x.counter, posn |-> x.posn, live |-> TRUE]]
+                     /\ ks' = [ks EXCEPT ![e.obj] = [prk |-> x.prk, t |-> x.t, counter |-> x.counter, posn |-> x.posn,
+                                                    live |-> TRUE, total |-> 0]]
               /\ UNCHANGED <<hs, ms, D, kc>>
 
 THkExpand == /\ Tr[l].e = "HkExpand"
@@ -174,8 +188,27 @@ THkExpand == /\ Tr[l].e = "HkExpand"
                     /\ Judge(e.res = x.res /\ e.out = x.out /\ e.canary = 1 /\ e.ocanary = 1, l, e, [res |-> x.res, out |-> x.out])
                     /\ Judge(x.st.counter \in 0..255 /\ x.st.posn \in 0..32, l, e, "machine invariant")
                     /\ ks' = [ks EXCEPT ![e.obj] = [prk |-> x.st.prk, t |-> x.st.t, counter |-> x.st.counter,
-                                                    posn |-> x.st.posn, live |-> TRUE]]
+                                                    posn |-> x.st.posn, live |-> TRUE, total |-> s.total + e.len]]
              /\ UNCHANGED <<hs, ms, D, kc>>
+
+(***************************************************************************)
+(* Control-level judgement of one expand call of a long history whose data *)
+(* is checked block by block (HkdfBlock events over the concatenation of   *)
+(* everything the history served).  Only the object's byte count is        *)
+(* tracked: the call returns -1 iff it was asked for at least one byte     *)
+(* past the 8160th, and every byte it wrote past the 8160th is zero        *)
+(* (tailnz = number of non-zero bytes among those, projected by the        *)
+(* harness from the logged output).                                        *)
+(***************************************************************************)
+THkExpandCtl == /\ Tr[l].e = "HkExpandCtl"
+                /\ LET e == Tr[l]
+                       s == ks[e.obj]
+                       past == e.len > 0 /\ s.total + e.len > HkdfMax
+                   IN  /\ Judge(e.res = (IF past THEN -1 ELSE 0), l, e, IF past THEN -1 ELSE 0)
+                       /\ Judge(e.tailnz = 0, l, e, "every byte past the 8160th is zero")
+                       /\ Judge(e.outlen = e.len /\ e.canary = 1 /\ e.ocanary = 1, l, e, "exactly len bytes, canaries intact")
+                       /\ ks' = [ks EXCEPT ![e.obj] = [s EXCEPT !.total = s.total + e.len]]
+                /\ UNCHANGED <<hs, ms, D, kc>>
 
 THkFree == /\ Tr[l].e = "HkFree"
            /\ LET e == Tr[l] IN
@@ -206,7 +239,7 @@ Next == /\ l <= Len(Tr)
         /\ l' = l + 1
         /\ \/ TReset \/ TGarbage \/ THash \/ THInit \/ THUpdate \/ THFinal \/ THFree
            \/ THmac \/ THmInit \/ THmUpdate \/ THmFinal \/ THmFree
-           \/ THkdf \/ THkdfBlock \/ THkExtract \/ THkExpand \/ THkFree \/ TPbkdf2 \/ TPbBlock
+           \/ THkdf \/ THkdfHead \/ TPbHead \/ THkdfBlock \/ THkExtract \/ THkExpand \/ THkExpandCtl \/ THkFree \/ TPbkdf2 \/ TPbBlock
 
 Spec == Init /\ [][Next]_vars
 TraceAccepted == Accepted(Len(Tr))
